@@ -3,7 +3,7 @@ package main
 // Ghost views over the store (sums over unbounded maps, DESIGN.md 3.5). Filled in by ghost_sums.go hooks.
 
 var ghostFuns = map[string]func(ev *Evaluator, args []*Term) Val{}
-var ghostSorts = map[string]Sort{}
+var ghostSorts = map[string]Sort{"pend": ArrSort(SBytes, ArrSort(SStr, SInt)), "stk": SInt}
 
 // ghostOnWrite is called on every write S[k] := v with the store before the write.
 func (m *Machine) ghostOnWrite(old *Term, k, v *Term) {
